@@ -6,6 +6,8 @@ N="${1:-32}"
 cd "$HERE" || exit 3
 if ! cargo +nightly miri --version >/dev/null 2>&1; then echo "MIRI-UNAVAILABLE"; exit 3; fi
 export CARGO_NET_OFFLINE=true
+# the simulation cfg flag of /verif/.cargo/config.toml must NOT apply here: guard off
+export RUSTFLAGS="-Adead_code"
 export MIRIFLAGS="-Zmiri-many-seeds=0..$N -Zmiri-preemption-rate=0.1 -Zmiri-compare-exchange-weak-failure-rate=0.2 -Zmiri-address-reuse-rate=0.7 -Zmiri-address-reuse-cross-thread-rate=0.5"
 out=$(CARGO_TARGET_DIR="$HERE/target" cargo +nightly miri run --offline -- all 2>&1); rc=$?
 echo "$out" | tail -25
